@@ -30,6 +30,10 @@ ASSUMPTIONS = [
     "the model's crash semantics assume SQLite's default durability configuration of the connection (an on-disk rollback "
     "journal: journal_mode delete/truncate/persist/wal); the connection's PRAGMAs are read on every run, a difference from a "
     "plain connection is a broken tie, journal_mode memory/off is reported as C08-pragma-weakens-atomic-commit",
+    "the many-rows journal of the quick tier (reset-6000-tiny-rows) is filled through the journal's own connection with one "
+    "executemany + one counter UPDATE + one commit instead of 5 700 persist_msg() calls; the model is given the 5 700 "
+    "persist calls, and the reopened file at the first crash point is compared with it (so equality of the two is checked, "
+    "not assumed)",
     "journal size is not a parameter of the model (atomic commit is assumed for any size); transactions larger than "
     "SQLite's page cache are covered by the large-journal scenarios of the correspondence / oracle only",
 ] + c13.ASSUMPTIONS
@@ -47,6 +51,7 @@ WITNESS = [["col", "T", "S"], ["persist", 0, 1, (b"\x0134=1\x01").hex(), 1], ["s
 class Killer:
     def __init__(self, k, mode):
         self.n, self.k, self.mode = 0, k, mode
+        self.ncommit = 0
 
     def before(self):
         if self.k is not None and self.mode == "before" and self.n == self.k:
@@ -88,6 +93,7 @@ class ConnProxy:
 
     def commit(self):
         self._k.before()
+        self._k.ncommit += 1
         try:
             return self._c.commit()
         finally:
@@ -121,9 +127,12 @@ def run_ops(path, ops, killer):
     try:
         im = c13.Impl(path)
         cum = [killer.n]
+        com = [killer.ncommit]
         for op in ops:
             im.step(tuple(op))
             cum.append(killer.n)
+            com.append(killer.ncommit)
+        im.commits = [b - a for a, b in zip(com, com[1:])]   # commit() calls made by each public call
         lines, out = im.lines, im.out
         return im, lines, out, cum
     finally:
@@ -200,8 +209,9 @@ def dry_run(d, ops, snap=False):
     if snap:
         killer.snap()  # after the last call
     fired = list(im.fired)
+    commits = list(im.commits)
     im.close()
-    return {"lines": lines, "out": out, "cum": cum, "faults": fired}
+    return {"lines": lines, "out": out, "cum": cum, "faults": fired, "commits": commits}
 
 
 def observe(path, k, mode, code):
@@ -287,7 +297,10 @@ def big_frame(i, pad, rng_byte):
 
 def big_scenarios(tier):
     """(name, sessions, messages per session and direction, padding bytes, the truncating call)"""
-    scn = [{"name": "reset-5MB-one-session", "n": 1200, "pad": 3000, "sessions": 1, "both_dirs": False, "set": [1, 1]}]
+    scn = [{"name": "reset-5MB-one-session", "n": 1200, "pad": 3000, "sessions": 1, "both_dirs": False, "set": [1, 1]},
+           # row COUNT independent of bytes: thousands of tiny rows in one direction, a few hundred in the other
+           {"name": "reset-6000-tiny-rows", "n": 300, "n_in": 5400, "pad": 0, "sessions": 1, "both_dirs": False, "set": [1, 1],
+            "fast_build": True}]
     if tier == "thorough":
         scn += [
             {"name": "truncate-half-6MB-two-sessions", "n": 1500, "pad": 2000, "sessions": 2, "both_dirs": False, "set": [700, None],
@@ -330,12 +343,30 @@ def big_case(scn):
         for t, s_ in pairs:
             im.step(("col", t, s_))
         expect_rows = []
-        for i in range(1, scn["n"] + 1):
+        n_out = scn["n"]
+        n_in = scn.get("n_in", scn["n"] if scn["both_dirs"] else 0)
+        fast = []
+        for i in range(1, max(n_out, n_in) + 1):
             for ref in range(len(pairs)):
-                for dd in ((1, 0) if scn["both_dirs"] else (1,)):
+                for dd in (1, 0):
+                    if i > (n_out if dd == 1 else n_in):
+                        continue
                     m = big_frame(i, scn["pad"], 97 + (i % 7))
-                    im.step(("persist", ref, dd, m.hex()))
+                    if scn.get("fast_build"):
+                        # thousands of rows: written through the journal's own connection in one transaction instead
+                        # of one persist_msg() each (the model still gets one persist line per row; that both arrive
+                        # at the same journal is compared at the first crash point)
+                        fast.append((i, ref + 1, dd, m))
+                        im.lines.append(f"jrn.persist {ref + 1} 1 1 {'out' if dd == 1 else 'in'} {C.hx(m)}")
+                    else:
+                        im.step(("persist", ref, dd, m.hex()))
                     expect_rows.append((i, m, dd, ref + 1))
+        if fast:
+            conn = im.j.conn
+            conn.executemany("INSERT INTO message VALUES(?, ?, ?, ?)", fast)
+            for ref in range(len(pairs)):
+                conn.execute("UPDATE session SET outboundSeqNo=?, inboundSeqNo=? WHERE sessionId = ?", (n_out, n_in, ref + 1))
+            conn.commit()
         im.close()
         build_lines = im.lines
         tail = [["col", "T", "S"], ["set", 0, scn["set"][0], scn["set"][1]]]
@@ -364,14 +395,15 @@ def big_case(scn):
                     os.remove(path + suffix)
         # reference states (independent of the model): before = everything stored, after = truncated
         o, i_ = scn["set"]
-        nout, nin = scn["n"] + 1, (scn["n"] + 1 if scn["both_dirs"] else 1)
+        nout, nin = n_out + 1, n_in + 1
         before = {"counters": {str(r + 1): [nout, nin] for r in range(len(pairs))}, "rows": len(expect_rows),
                   "digest": row_digest(expect_rows)}
         o2, i2 = (nout if o is None else o), (nin if i_ is None else i_)
         kept = [r for r in expect_rows if not (r[3] == 1 and r[0] >= (o2 if r[2] == 1 else i2))]
         after = {"counters": dict(before["counters"], **{"1": [o2, i2]}), "rows": len(kept), "digest": row_digest(kept)}
         size = os.path.getsize(base)
-        return {"scn": scn, "build_lines": build_lines, "tail_lines": dry["lines"], "cum": dry["cum"], "results": results,
+        return {"scn": scn, "build_lines": build_lines, "tail_lines": dry["lines"], "cum": dry["cum"],
+                "commits": dry["commits"], "tail": tail, "results": results,
                 "before": before, "after": after, "file_bytes": size}
     finally:
         shutil.rmtree(d, ignore_errors=True)
@@ -380,8 +412,9 @@ def big_case(scn):
 def dry_run_at(path, ops):
     killer = Killer(None, None)
     im, lines, out, cum = run_ops(path, ops, killer)
+    commits = list(im.commits)
     im.close()
-    return {"lines": lines, "out": out, "cum": cum}
+    return {"lines": lines, "out": out, "cum": cum, "commits": commits}
 
 
 _BIG_CACHE = {}
@@ -397,9 +430,21 @@ def run_big(tier):
     return _BIG_CACHE[key]
 
 
+def commit_clause(ops, commits, inp):
+    """a public call is ONE transaction: it commits at most once (more commits = its effect can reach the file in parts)"""
+    for op, n in zip(ops, commits or []):
+        if n > 1:
+            return [{"signature": "C08-operation-commits-more-than-once",
+                     "what": f"{METHOD.get(c13.conv_of(op)[1][0], op[0])} called commit() {n} times: between two of them the "
+                             "file holds a part of the operation",
+                     "input": inp, "expected": "at most one commit() per public call", "observed": n}]
+    return []
+
+
 def check_big(r, weak):
     """property clauses on a large-journal scenario (implementation + reference only)"""
-    fails = []
+    fails = commit_clause(r.get("tail", []), r.get("commits"), {"big": r["scn"], "k": None, "mode": "close",
+                                                                  "file_bytes": r["file_bytes"]})
     cum = r["cum"]
     for c in r["results"]:
         inp = {"big": r["scn"], "k": c["k"], "mode": c["mode"], "file_bytes": r["file_bytes"]}
@@ -587,8 +632,8 @@ def correspondence(ctx):
     t1 = time.time()
     # (b) real abrupt process exits: a forked child per crash point (both flavours) + normal close, for as many
     #     sequences (in order) as fit the time budget, at least `min_cases`
-    res_fork = run_cases([(i, ops, "all") for i, ops in enumerate(seqs)], budget_s=ctx.n(12, 240),
-                         min_cases=ctx.n(4, len(corpus) + 3))
+    res_fork = run_cases([(i, ops, "all") for i, ops in enumerate(seqs)], budget_s=ctx.n(8, 240),
+                         min_cases=ctx.n(3, len(corpus) + 3))
     ctx.note(f"C08 correspondence: snapshots of {len(seqs)} sequences in {t1 - t0:.1f}s, real process exits for "
              f"{len(res_fork)} sequences in {time.time() - t1:.1f}s")
     res = res_snap + res_fork
@@ -678,6 +723,7 @@ def correspondence(ctx):
                 dis.append({"input": {"big": r["scn"], "k": c["k"], "mode": c["mode"]},
                             "model": got[i] if i < len(got) else "", "impl": c["err"] or (c["out"][i] if i < len(c["out"]) else "")})
         big_dist.append({"scenario": r["scn"]["name"], "file_bytes": r["file_bytes"], "rows": r["before"]["rows"],
+                         "commits_per_call_of_new_process": r["commits"],
                          "crash_points": len(r["results"]), "calls_of_new_process": r["cum"]})
     content = {}
     for r in res_snap:
@@ -790,7 +836,7 @@ def check_case(r):
     lines, cum = dry["lines"], dry["cum"]
     half = any(is_half(l) for l in lines)
     states, failed = ref_states(ops, lines, dry.get("out"), dry.get("faults", ()))
-    fails = []
+    fails = commit_clause(ops, dry.get("commits"), {"ops": ops, "k": None, "mode": "close"})
     plain = [c13.conv_of(o)[1] for o in ops]
 
     def sig(s, done=None):
